@@ -13,7 +13,7 @@ from amoco.logger import Log
 logger = Log(__name__)
 logger.debug("loading module")
 
-from .expressions import oper, composer, bit0
+from .expressions import oper, composer, bit0, cst
 
 
 def Abs(x):
@@ -52,10 +52,14 @@ def SubWithBorrow(x, y, c=None):
 
 
 def ROR(x, n):
+    if isinstance(n, int):
+        n = cst(n, x.size)
     return oper(">>>", x, n)  # (x>>n | x<<(x.size-n))
 
 
 def ROL(x, n):
+    if isinstance(n, int):
+        n = cst(n, x.size)
     return oper("<<<", x, n)  # (x<<n | x>>(x.size-n))
 
 
